@@ -53,6 +53,19 @@ EXTRA = ["| a | b | c |\n|:--|:-:|--:|\n| x \\| y | z |\n", "a | b | c\n:--|:-:|
          "> > > > > > > deep\n", "- - - - - - - deep\n", "> - > - > - > - x\n", ">! >! >! >! >! >! >! x\n", "> > > > > > -\n", "> > > > > > - item\n", "- - - - - - > q\n"]
 
 
+def ladder_docs():
+    """every depth 1..9 of quote / list / mixed containers, ending in a line that could open one more container: empty list items (a bare marker),
+    markers followed by blanks only, one more quote mark, with and without content"""
+    out = []
+    tails = ["+", "*", "1.", "7)", "-", "+ ", "* x", "1. y", ">", "> z", "+\t", "- [ ] t", "10. ", "*\n", "+\n\n+", "1)\n2)"]
+    for d in range(1, 10):
+        for unit in (["> "], ["- "], ["> ", "- "], ["1. ", "> "], [">! "], [">"]):
+            pre = "".join(unit[i % len(unit)] for i in range(d))
+            for t in tails:
+                out.append(pre + t + "\n")
+    return out
+
+
 def oracle(ctx, docs, cfgs):
     n = 0
     mds = [(c, configs.make(c)) for c in cfgs]
@@ -158,7 +171,7 @@ def shared_parser_part(ctx):
 def run(ctx):
     ctx.broken += common.proof_stage(ctx, THEOREMS)
     q = ctx.quick()
-    docs = EXTRA + nest_docs(ctx.rng, 400 if q else 4000) + [gen.md_any(ctx.rng, 8) for _ in range(2500 if q else 30000)] + [gen.md_nested(ctx.rng) for _ in range(400 if q else 4000)]
+    docs = EXTRA + ladder_docs() + nest_docs(ctx.rng, 400 if q else 4000) + [gen.md_any(ctx.rng, 8) for _ in range(2500 if q else 30000)] + [gen.md_nested(ctx.rng) for _ in range(400 if q else 4000)]
     cfgs = cfgs_for(ctx)
     common.model_tie(ctx, docs, 'core', 'doc', limit=(1200 if ctx.quick() else 12000))
     common.model_tie(ctx, docs[::3], 'core-hardwrap', 'doc', limit=(400 if ctx.quick() else 4000))
